@@ -1,7 +1,7 @@
 \* reference configuration for: tlc -config StackNameSingle.cfg StackNameMC.tla (checks/c15.py generates the same text)
 INIT InitSingle
 NEXT Next
-INVARIANTS SingleDiffers
+INVARIANTS SingleDiffers DepthDecides
 CHECK_DEADLOCK FALSE
 CONSTANTS
  MaxLen = 4096
